@@ -77,6 +77,7 @@ from .custom_types import (
     ModuleIdentityObject,
 )
 from .exceptions import ResponseError, RequestError
+from .packets.util import tag_request_path
 from .packets import (
     RequestPacket,
     ReadTagFragmentedRequestPacket,
@@ -1332,6 +1333,9 @@ class LogixDriver(CIPDriver):
 
             if not 0 <= elements <= 0xFFFF:  # the element count of a tag service is a UINT
                 raise RequestError(f"Invalid element count: {elements}")
+
+            # an index too large for an element segment cannot be encoded, fail this request here instead of the whole call later
+            tag_request_path(tag, tag_info, self._cfg["use_instance_ids"])
 
             return {
                 "user_tag": request_tag,  # tag name from user, without element request
